@@ -510,6 +510,13 @@ func (e *Env) contractForm(name string, n *ast.CallExpr) (Value, bool) {
 		}
 		id := e.x.errTypeID(exprText(n.Args[1]))
 		return Scalar{And(Not(ev.Nil), Eq(ev.Type, IntC(int64(id)))), boolT}, true
+	case "off":
+		v := e.expr(n.Args[0])
+		sv, ok := v.(SliceV)
+		if !ok {
+			unsupported("off() of %T", v)
+		}
+		return Scalar{sv.Off, intT}, true
 	case "mathint":
 		v := e.expr(n.Args[0])
 		return Scalar{e.toIntTerm(v), mathIntType}, true
